@@ -327,6 +327,14 @@ func (in *Interp) sentinelInit(pkg *ssa.Package) {
 				ip = net.IPv6unspecified
 			case "IPv6loopback":
 				ip = net.IPv6loopback
+			case "v4InV6Prefix":
+				ip = []byte{0, 0, 0, 0, 0, 0, 0, 0, 0, 0, 0xff, 0xff}
+			case "classAMask":
+				ip = net.IPv4Mask(0xff, 0, 0, 0)
+			case "classBMask":
+				ip = net.IPv4Mask(0xff, 0xff, 0, 0)
+			case "classCMask":
+				ip = net.IPv4Mask(0xff, 0xff, 0xff, 0)
 			}
 			if ip != nil {
 				ts := make([]*Term, len(ip))
